@@ -963,7 +963,7 @@ func mapChansOf(c *Ctx, root string) mapChans {
 			continue
 		}
 		for _, fr := range deepFrames(g, 2) {
-			for _, op := range chanOpsOf(fr.f) {
+			for _, op := range fr.chanOps() {
 				if op.kind == "range" || (op.kind == "recv" && len(op.arms) == 1 && !op.arms[0].send && !chanElemIsEmptyStruct(op.arms[0].ch.Type())) {
 					// the ranged-over channel (or the channel of the explicit `item, ok := <-in` loop), seen through the
 					// helper's parameter
